@@ -323,46 +323,50 @@ func c08Check(c c08Case) *Violation {
 		}
 		var got gts.Regions
 		carrier := gts.New(nil, featsToGts(c.Table), append([]byte(nil), seqs[0]...))
-		if pi := guard(func() { got = locate(carrier) }); pi != nil {
-			return panicViolation(fmt.Sprintf("locator %q applied", text), pi)
-		}
-		if len(got) != len(base) {
-			return viol("locator-count", "locator %q returns %d regions, want %d", text, len(got), len(base))
-		}
-		for i, b := range base {
-			n := 0
-			for _, s := range b.segs {
-				n += s[1] - s[0]
+		// a locator is a value that commands apply to every record of a stream: it must denote the same regions
+		// every time it is applied (the comparison below runs for three consecutive applications)
+		for round := 0; round < 3; round++ {
+			if pi := guard(func() { got = locate(carrier) }); pi != nil {
+				return panicViolation(fmt.Sprintf("locator %q applied", text), pi)
 			}
-			want := regionDen(b.segs, b.comp)
-			ok := true
-			segs, comp := b.segs, b.comp
-			if twoStage {
-				lo, hi := first.bounds(n)
-				if lo < 0 || hi > n {
-					skipCase("locator-first-stage-leaves-sequence")
-					return nil // outside the generated domain
-				}
-				// the whole sequence is one forward segment: its slice is again one forward segment
-				segs, comp = [][2]int{{lo, hi}}, false
-				n = hi - lo
-				want = regionDen(segs, comp)
+			if len(got) != len(base) {
+				return viol("locator-count", "locator %q returns %d regions, want %d (application %d)", text, len(got), len(base), round+1)
 			}
-			if c.UseAt {
-				lo, hi := c.Mod.bounds(n)
-				want, ok = expectedSlice(segs, comp, lo, hi, c.L)
-				if !ok {
-					skipCase("locator-resize-leaves-sequence")
-					return nil
+			for i, b := range base {
+				n := 0
+				for _, s := range b.segs {
+					n += s[1] - s[0]
 				}
-			}
-			for _, seq := range seqs {
-				var gb []byte
-				if pi := guard(func() { gb = got[i].Locate(gts.New(nil, nil, append([]byte(nil), seq...))).Bytes() }); pi != nil {
-					return panicViolation("Locate(locator region)", pi)
+				want := regionDen(b.segs, b.comp)
+				ok := true
+				segs, comp := b.segs, b.comp
+				if twoStage {
+					lo, hi := first.bounds(n)
+					if lo < 0 || hi > n {
+						skipCase("locator-first-stage-leaves-sequence")
+						return nil // outside the generated domain
+					}
+					// the whole sequence is one forward segment: its slice is again one forward segment
+					segs, comp = [][2]int{{lo, hi}}, false
+					n = hi - lo
+					want = regionDen(segs, comp)
 				}
-				if exp := modelExtract(want, seq); !bytes.Equal(gb, exp) {
-					return viol("locator", "locator %q region %d (model %v comp=%v) extracts %q, want %q (region %v)", text, i, b.segs, b.comp, gb, exp, got[i])
+				if c.UseAt {
+					lo, hi := c.Mod.bounds(n)
+					want, ok = expectedSlice(segs, comp, lo, hi, c.L)
+					if !ok {
+						skipCase("locator-resize-leaves-sequence")
+						return nil
+					}
+				}
+				for _, seq := range seqs {
+					var gb []byte
+					if pi := guard(func() { gb = got[i].Locate(gts.New(nil, nil, append([]byte(nil), seq...))).Bytes() }); pi != nil {
+						return panicViolation("Locate(locator region)", pi)
+					}
+					if exp := modelExtract(want, seq); !bytes.Equal(gb, exp) {
+						return viol("locator", "locator %q region %d (model %v comp=%v) extracts %q, want %q (region %v, application %d)", text, i, b.segs, b.comp, gb, exp, got[i], round+1)
+					}
 				}
 			}
 		}
